@@ -150,6 +150,12 @@ open Lean in
 """
 
 
+def leanchecker(thm_modules):
+    """Independent re-check of the compiled theorem modules by `leanchecker` (thorough tier)."""
+    rc, out, err, dt = run(["lake", "env", "leanchecker"] + list(thm_modules), cwd=LEAN)
+    return rc == 0, (out + err)[-400:].replace("\n", " | "), dt
+
+
 def audit(thm_modules):
     """#print axioms for every theorem in the given modules; grep sources for forbidden constructs.
     returns (theorems: dict name->axioms, bad: list[str])."""
